@@ -174,6 +174,14 @@ func openIndex(eng string, cp *corpus) (bleve.Index, error) {
 	if err := idx.Batch(b); err != nil {
 		return nil, err
 	}
+	if os.Getenv("VERIF_C07_DEBUG") != "" && eng == "scorch-merged" {
+		if adv, aerr := idx.Advanced(); aerr == nil {
+			if sc, ok := adv.(*scorch.Scorch); ok {
+				sm := sc.StatsMap()
+				fmt.Fprintf(os.Stderr, "DEBUG %s: file segs %v mem segs %v merges %v\n", cp.Name, sm["num_root_filesegments"], sm["num_root_memorysegments"], sm["TotFileMergeForceOpsCompleted"])
+			}
+		}
+	}
 	if n, _ := idx.DocCount(); int(n) != len(cp.Docs) {
 		return nil, fmt.Errorf("index %s/%s holds %d of %d documents", eng, cp.Name, n, len(cp.Docs))
 	}
